@@ -643,6 +643,18 @@ func (s *Stream) ProcessSync(data map[string]any) (map[string]any, error) {
 	if s.config.Mode == types.ExecCEP {
 		return nil, fmt.Errorf("Synchronous processing is not supported for MATCH_RECOGNIZE queries.")
 	}
+	// After Stop no sink may be invoked any more, and the synchronous path calls
+	// them inline on the caller's goroutine: refuse once stopped, and register the
+	// call with the lifecycle group (same protocol as Start) so a concurrent Stop
+	// joins it before returning.
+	s.startMu.Lock()
+	if atomic.LoadInt32(&s.stopped) != 0 {
+		s.startMu.Unlock()
+		return nil, fmt.Errorf("stream is stopped")
+	}
+	s.lifecycle.Add(1)
+	s.startMu.Unlock()
+	defer s.lifecycle.Done()
 
 	// Directly process data and return result. processDirectDataSync applies the
 	// filter after JOIN enrichment so WHERE can reference joined columns.
